@@ -1516,6 +1516,15 @@ def rule_r12(chk, p, t):
     r.guard(pe.qualname, one)
 
 
+def rule_r13(chk, p, t):
+    # an event's configured time becomes its stored Julian date through the same datetime -> Julian date conversion that
+    # builds the scenario clock and the step windows: it must be a function of the calendar fields only, or events and
+    # windows end up on different time bases (shared instance of C05.R10)
+    from rules import C05
+
+    C05.rule_r10(chk, p, t, rid="C01.R13")
+
+
 def run(chk, p, t):
     chk.explanation = (
         "Static decision of structural necessary conditions of C01 on the current source: (R1) window tiling "
@@ -1532,7 +1541,7 @@ def run(chk, p, t):
         "agent time equals the clock time before the tick when prunePropagateEvents runs (PropagateRegistration.generateSubmission)",
         "call resolution by the repo's annotations and class-hierarchy analysis",
     ]
-    for fn in (rule_r1, rule_r2, rule_r3, rule_r4, rule_r5, rule_r6, rule_r7, rule_r8, rule_r9, rule_r10, rule_r11, rule_r12):
+    for fn in (rule_r1, rule_r2, rule_r3, rule_r4, rule_r5, rule_r6, rule_r7, rule_r8, rule_r9, rule_r10, rule_r11, rule_r12, rule_r13):
         rid = "C01.R" + fn.__name__.split("_r")[-1]
         if not chk.wants(rid):
             continue
